@@ -72,6 +72,13 @@ def gap(run, quick):
                 run.violation("Modes.evaluate-differs", "Modes.evaluate", {"s": s, "ell_max_modes": L, "lead": list(lead)}, "sum f_lm sYlm", "differs")
         except Exception as e:
             run.violation("Modes.evaluate-raised", "Modes.evaluate", {"s": s, "ell_max_modes": L, "lead": list(lead)}, "values", repr(e))
+    # theta_phi itself: documented as theta uniformly on [0, pi] (closed), phi uniformly on [0, 2pi) (open), shape (n_theta, n_phi, 2)
+    for nt, nph in [(1, 1), (2, 3), (5, 4), (7, 7), (9, 16)]:
+        tp = spherical.theta_phi(nt, nph)
+        want = np.array([[[th, ph] for ph in np.linspace(0.0, 2 * np.pi, num=nph, endpoint=False)] for th in np.linspace(0.0, np.pi, num=nt, endpoint=True)])
+        run.gap_case("theta_phi", (nt, nph), "theta_phi")
+        if tp.shape != (nt, nph, 2) or not np.array_equal(tp, want):
+            run.violation("theta_phi-grid", "theta_phi", {"n_theta": nt, "n_phi": nph}, "documented equiangular grid", "differs")
     # Modes.grid with and without spinsfast, at the points of theta_phi
     for s, L, lead in ([(0, 4, ()), (-2, 6, (2,)), (3, 5, ())] if quick else [(0, 4, ()), (-2, 6, (2,)), (3, 5, ()), (1, 12, (2, 2)), (-4, 9, ())]):
         modes = helpers.make_modes(rng, s, L, lead)
@@ -100,7 +107,7 @@ def check(run):
     run.lean_props(common.modules_for("C03"))
     rng = run.rng
     rotors = [r for r in corr.rotor_strata(rng, 4 if quick else 12)]
-    preps = kern.prep_rotors(run, rotors)
+    preps = run.attempt("corr:euler", kern.prep_rotors, run, rotors, default={})
     cases = []
     for (L, P, s, eM) in ([(4, 4, 0, 4), (4, 2, -2, 3), (6, 3, 3, 6), (6, 6, 1, 2), (8, 4, -4, 8), (7, 5, 5, 7), (9, 6, -6, 8), (3, 0, 0, 3), (5, 1, -1, 0)] if quick else
                           [(4, 4, 0, 4), (4, 2, -2, 3), (6, 3, 3, 6), (6, 6, 1, 2), (8, 4, -4, 8), (7, 5, 5, 7), (9, 6, -6, 8), (3, 0, 0, 3), (5, 1, -1, 0),
@@ -110,7 +117,7 @@ def check(run):
         else:
             f = helpers.random_weights(rng, s, eM)
         cases.append((L, P, s, eM, f))
-    kern.corr_evalH(run, cases, rotors if not quick else rotors[:14] + rotors[-3:], preps, poison=float("nan"))
+    run.attempt("corr:corr_evalH", kern.corr_evalH, run, cases, rotors if not quick else rotors[:14] + rotors[-3:], preps, poison=float("nan"))
     gap(run, quick)
     run.assumptions += ["BLAS matmul and spinsfast are external: compared numerically only", "rounding tolerance 64 (ell+2)^1.5 eps * max row 1-norm of the weights (fixed multiple)"]
 
